@@ -15,6 +15,18 @@ fn blob(v: &Value) -> Vec<u8> {
     }
 }
 
+macro_rules! return_life {
+    ($outcomes:expr, $late:expr, $exited:expr, $events:expr, $stats:expr, $results:expr) => {
+        json!({
+            "outcomes": $outcomes, "late": $late, "exited": $exited,
+            "events": $events.iter().map(|e| json!({"seq": e.seq, "kind": e.kind, "w": e.worker, "tag": format!("{:016x}", e.tag)})).collect::<Vec<_>>(),
+            "stats": {"dispatched": $stats.total_dispatched, "dropped": $stats.total_dropped,
+                      "workers": $stats.workers.iter().map(|w| json!({"id": w.id, "q": w.queue_size, "dropped": w.dropped})).collect::<Vec<_>>()},
+            "results": $results,
+        })
+    };
+}
+
 macro_rules! run_pool {
     ($krate:ident, $v:expr, $new_pool:expr, $project:expr) => {{
         use $krate::verif_hooks as hooks;
@@ -27,21 +39,35 @@ macro_rules! run_pool {
         let pool = Arc::new($new_pool(tx));
         let disp: Vec<Vec<Vec<u8>>> = arr(&v["dispatchers"]).iter().map(|d| arr(d).iter().map(blob).collect()).collect();
         let gap_us = v["gap_us"].as_u64().unwrap_or(0);
+        let during = v["life"].as_str() == Some("during");
+        let shutdown_at_us = v["shutdown_at_us"].as_u64().unwrap_or(0);
         let outcomes: Vec<Vec<&'static str>> = std::thread::scope(|s| {
+            if during {
+                // shutdown() concurrent with the dispatch calls
+                let pool = Arc::clone(&pool);
+                s.spawn(move || {
+                    std::thread::sleep(Duration::from_micros(shutdown_at_us));
+                    hooks::record(4, 0);
+                    pool.shutdown();
+                    hooks::record(5, 0);
+                });
+            }
             let hs: Vec<_> = disp
                 .iter()
                 .map(|frames| {
                     let pool = Arc::clone(&pool);
                     s.spawn(move || {
+                        let last = frames.len();
                         frames
                             .iter()
-                            .map(|f| {
+                            .enumerate()
+                            .map(|(fi, f)| {
                                 let t = hooks::tag(f);
                                 hooks::record(1, t);
                                 let r = pool.dispatch(f.clone());
                                 let q = matches!(r, DispatchResult::Queued);
                                 hooks::record(if q { 2 } else { 3 }, t);
-                                if gap_us > 0 {
+                                if gap_us > 0 && fi + 1 < last {
                                     std::thread::sleep(Duration::from_micros(gap_us));
                                 }
                                 if q { "queued" } else { "dropped" }
@@ -52,6 +78,48 @@ macro_rules! run_pool {
                 .collect();
             hs.into_iter().map(|h| h.join().unwrap()).collect()
         });
+        if let Some(mode) = v["life"].as_str() {
+            // life-cycle run (X03): shutdown() right after the last dispatch call returned ("after"); then wait until every worker
+            // has left (the result channel disconnects when the last worker drops its sender)
+            if mode != "during" {
+                hooks::record(4, 0);
+                pool.shutdown();
+                hooks::record(5, 0);
+            }
+            let late: Vec<&'static str> = arr(&v["late"])
+                .iter()
+                .map(|f| {
+                    let f = blob(f);
+                    let t = hooks::tag(&f);
+                    hooks::record(1, t);
+                    let q = matches!(pool.dispatch(f), DispatchResult::Queued);
+                    hooks::record(if q { 2 } else { 3 }, t);
+                    if q { "queued" } else { "dropped" }
+                })
+                .collect();
+            let mut results = vec![];
+            let t0 = Instant::now();
+            let mut exited = false;
+            loop {
+                match rx.recv_timeout(Duration::from_millis(50)) {
+                    Ok(r) => results.push($project(&r)),
+                    Err(std::sync::mpsc::RecvTimeoutError::Disconnected) => {
+                        exited = true;
+                        break;
+                    }
+                    Err(std::sync::mpsc::RecvTimeoutError::Timeout) => {
+                        if t0.elapsed() > Duration::from_secs(10) {
+                            break;
+                        }
+                    }
+                }
+            }
+            hooks::record(6, 0);
+            let events = hooks::take_events();
+            let stats = pool.stats();
+            hooks::set_perturbation(0);
+            return_life!(outcomes, late, exited, events, stats, results)
+        } else {
         let n_queued: usize = outcomes.iter().flatten().filter(|o| **o == "queued").count();
         // wait (generously) until every queued packet has been taken by a worker and the queues are empty
         let t0 = Instant::now();
@@ -91,8 +159,10 @@ macro_rules! run_pool {
                       "workers": stats.workers.iter().map(|w| json!({"id": w.id, "q": w.queue_size, "dropped": w.dropped})).collect::<Vec<_>>()},
             "results": results,
         })
+        }
     }};
 }
+
 
 pub fn run(input: &mut dyn BufRead, out: &mut dyn Write, _args: &[String]) -> R {
     let db = Arc::new(huginn_net_db::Database::load_default().map_err(|e| e.to_string())?);
